@@ -666,7 +666,7 @@ func checkC18(c *lib.Ctx) {
 			return
 		}
 		if st.MaxTx != 0 { // the read-longer-than-a-page observation (F10)
-			top, err := os.MkdirTemp("", "vh-c18-")
+			top, err := lib.MkScratch("vh-c18-")
 			if err == nil {
 				defer os.RemoveAll(top)
 				c18F10(c, top)
@@ -860,7 +860,7 @@ func checkC18(c *lib.Ctx) {
 	if c.Replay != "" {
 		return
 	}
-	top, err := os.MkdirTemp("", "vh-c18-")
+	top, err := lib.MkScratch("vh-c18-")
 	if err != nil {
 		r.Fail(lib.Failure{Kind: "tie", Key: "harness/tmpdir", What: err.Error()})
 		return
